@@ -481,6 +481,25 @@ def run(tier):
     recs = [r for r, _ in results]
     notes = [n for _, n in results]
     bad = judge(c, recs)
+    # A probe that did not succeed is an absence within a bound (ports picked a moment earlier, eight configurations
+    # starting at once): such a record is observed again, alone, in fresh processes, and reported only if it is
+    # rejected every time (DESIGN 2.7).  A listener that should not be there is not re-tried away: it was seen.
+    confirmed = []
+    for i in bad:
+        o, w = recs[i]["obs"], items[i]["want"]
+        only_absence = w["accept"] and not o["panic"] and not (w["tcp"] == "no" and o["tcp"]) and not (w["udp"] == "no" and o["udp"])
+        again_ok = False
+        if only_absence:
+            for k in range(2):
+                rec2, note2 = asyncio.run(drive(c, [items[i]]))[0]
+                c.add("absence_reruns", 1)
+                if not judge(c, [rec2]):
+                    again_ok = True
+                    break
+                recs[i], notes[i] = rec2, note2
+        if not again_ok:
+            confirmed.append(i)
+    bad = confirmed
     for i in bad:
         c.violation(describe(recs[i], notes[i], items[i]["want"]), {"item": items[i], "record": recs[i], "note": notes[i]})
     c.add("configurations_started", len(items))
